@@ -237,6 +237,7 @@ def build_oracle(log):
         if rc == 0:
             break
         log("native oracle build attempt %d failed (rc %s):\n%s" % (attempt, rc, out[-2500:]))
+        build_oracle.last_error = "rc %s: %s" % (rc, out[-600:].replace("\n", " | "))
     if rc != 0:
         return None
     # unoptimised twin (cargo builds proc-macros with opt-level 0): used for the stack-depth stress only
@@ -412,7 +413,7 @@ def run(tier, seed, view="C03"):
                 "failing_literal": mm, "how_to_replay": "oracle stress <n> (built by ./check C03)"})
             violations.append((prop, "literal_stress/%d" % i, path, "", mm))
     else:
-        undecided.append("native oracle did not build")
+        undecided.append("native oracle did not build (%s)" % getattr(build_oracle, "last_error", "?"))
     # failed function-level obligations: replay + lift to whole literals
     for p, h, r, okey in failed[:4]:
         desc = "; ".join("%s @ %s" % (d, l) for d, l in r["failed_checks"][:3])
